@@ -29,7 +29,7 @@ func writeManifest() {
 	checks := []map[string]interface{}{}
 	engines := map[string]map[string]interface{}{}
 	claimed := map[string]bool{}
-	for _, s := range specs {
+	for _, s := range enabledSpecs() {
 		claimed[s.Prop] = true
 		checks = append(checks, map[string]interface{}{
 			"property_id":         s.Prop,
@@ -66,7 +66,7 @@ func writeManifest() {
 	}
 	engList := []map[string]interface{}{}
 	seen := map[string]bool{}
-	for _, s := range specs {
+	for _, s := range enabledSpecs() {
 		if !seen[s.Engine] {
 			seen[s.Engine] = true
 			engList = append(engList, engines[s.Engine])
